@@ -35,6 +35,11 @@ func (fr *Frame) call(st *State, site ssa.Instruction, c *ssa.CallCommon, pos to
 		}
 		key := methodKey(c.Method)
 		fr.safe(st, "nil", pos, "method call on nil interface", not(eq("(tag "+recv.T+")", "0")))
+		// a contract keyed by the receiver's static interface type takes precedence over the declaring interface's
+		k2 := "(" + TypeKey(c.Value.Type()) + ")." + c.Method.Name()
+		if fc, ok := u.P.CS.Funcs[k2]; ok {
+			return fr.contractCall(st, fc, k2, args, c.Signature(), pos)
+		}
 		if fc, ok := u.P.CS.Funcs[key]; ok {
 			return fr.contractCall(st, fc, key, args, c.Signature(), pos)
 		}
@@ -184,6 +189,8 @@ func (fr *Frame) contractCall(st *State, fc *FuncContract, key string, args []Va
 	u := fr.u
 	if fc.Trusted {
 		u.trusted[key] = true
+	} else if key != FuncKey(fr.root.fn) {
+		u.repoCallees[key] = true
 	}
 	ord := fr.root.nextCallOrd(key)
 	vars := map[string]Val{}
@@ -677,6 +684,12 @@ func (u *Unit) contractWrites(fc *FuncContract, ws map[string]bool, ptypes []typ
 			u.sortsIn(t, "H_", ws)
 			continue
 		}
+		if c, ok := a.(ECall); ok {
+			if _, isG := u.P.CS.GhostMaps[c.Fun]; isG {
+				ws["GM_"+c.Fun] = true
+				continue
+			}
+		}
 		// unknown type (ghost field or unresolved): be conservative
 		for _, s := range []string{SInt, SBool, SStr, SRef, SIface, SSlice, SReal} {
 			ws["H_"+s] = true
@@ -718,6 +731,10 @@ func sigTypes(sig *types.Signature, recv types.Type) []types.Type {
 
 func (u *Unit) callWrites(c *ssa.CallCommon, ws map[string]bool, seen map[*ssa.Function]bool, depth int) {
 	if c.IsInvoke() {
+		if fc, ok := u.P.CS.Funcs["("+TypeKey(c.Value.Type())+")."+c.Method.Name()]; ok {
+			u.contractWrites(fc, ws, sigTypes(c.Signature(), c.Value.Type()))
+			return
+		}
 		if fc, ok := u.P.CS.Funcs[methodKey(c.Method)]; ok {
 			u.contractWrites(fc, ws, sigTypes(c.Signature(), c.Value.Type()))
 		} else {
